@@ -25,3 +25,7 @@ import SpdxVerif.Props.C10Text
 #print axioms Spdx.C10.satisfies_of_eval_eq
 #print axioms Spdx.C10.extract_set_of_leaves
 #print axioms Spdx.C10.leaves_distrib
+#print axioms Spdx.C10.toks_space_run
+#print axioms Spdx.C10.toks_space_after_lparen
+#print axioms Spdx.C10.toks_space_before_rparen
+#print axioms Spdx.C10.respacing_irrelevant
